@@ -150,7 +150,16 @@ EXPORT errno_t _wcrtomb_s_chk(size_t *restrict retvalp, char *restrict dest,
         }
     }
 
-    len = *retvalp = wcrtomb(dest, wc, ps);
+    if (dest) {
+        /* wcrtomb stores up to MB_CUR_MAX bytes, whatever dmax is */
+        char tmpbuf[MB_LEN_MAX];
+        len = *retvalp = wcrtomb(tmpbuf, wc, ps);
+        if (len < dmax) {
+            memcpy(dest, tmpbuf, len);
+        }
+    } else {
+        len = *retvalp = wcrtomb(dest, wc, ps);
+    }
 
     if (likely(len < dmax)) {
         if (dest) {
